@@ -186,9 +186,11 @@ def cases(draw, tier):
         args["max_tridiag_iter"] = mti
         lo = 20 if mti is None else mti
         args["max_iter"] = lo + draw(st.sampled_from([0, 0, 1, 5, 40]))
-        if args["max_iter"] == 1 and "tridiag_max_iter_1" in _avoided():
-            args["max_iter"] = 2  # F-C08-1: T = [[0]] is returned when the loop exits in its first iteration
         args["tolerance"] = draw(st.sampled_from([0.0, 1e-3, 1.0]))
+        if args["max_iter"] == 1 and "tridiag_max_iter_1" in _avoided():
+            # F-C08-1: T = [[0]] is returned when the loop exits (tolerance met) in its first iteration; with tolerance 0 the
+            # exit cannot fire, so max_iter = 1 itself stays covered
+            args["tolerance"] = 0.0
         if draw(st.integers(0, 2)) == 0:
             args["sua"] = draw(st.sampled_from([0.0, 1e-3, 1e-6]))
         case["by_size"] = draw(st.sampled_from([False, False, True]))
@@ -287,7 +289,7 @@ def _system(case):
     if S.dtn == "f64" and float((S.lamA - w.sort(-1).values).abs().max()) > 1e-10 * float(w.max()):
         raise HarnessError("spectrum of the built matrix differs from the requested one")
     r = case["rhs"]
-    S.t = t = r["t"]
+    S.t = r["t"]
     S.eps = float(case.get("args", {}).get("eps", EPS_DEFAULT))
     S.eps_dt = float(torch.tensor(S.eps, dtype=S.dtype))
     vals = torch.tensor(r["vals"], dtype=torch.float64) / 8.0
@@ -701,7 +703,8 @@ def _fam_scale(S, case, labels):
     (scaling by a power of two commutes with rounding while nothing under/overflows): compared to 8u elementwise, and the
     two runs must agree on the NumericalWarning.  For any other alpha the normalised right-hand sides differ by one
     rounding and rounded CG trajectories separate, so only  ||x_alpha/alpha - x||_A <= bound(k1) + bound(k2)  is asserted.
-    Columns whose classification against eps changes under the scaling are left out (labelled)."""
+    Columns whose classification against eps changes under the scaling are left out (labelled), and then the other
+    columns are compared through their bounds only (the stopping time depends on the mean residual over all columns)."""
     args = dict(case["args"])
     args["max_tridiag_iter"] = min(20, args["max_iter"])
     alpha = float(case["alpha"])
@@ -722,16 +725,17 @@ def _fam_scale(S, case, labels):
     nzb2 = torch.where(S.iszero, torch.ones_like(S.beta), beta2)
     inrange = bool(((nzb > lo) & (nzb < hi) & (nzb2 > lo) & (nzb2 < hi)).all())
     x0ok = S.x0_lib is None or bool((x02.double() == S.x0_lib.double() * alpha).all())
-    exact = m == 0.5 and inrange and x0ok and bool((b2.double() == S.b_lib.double() * alpha).all())
+    # a column whose classification against eps changes also changes the (mean-residual) stopping time of all the others
+    # columns with 0 < ||b|| < eps are iterated un-normalised (rhs_norm := 1): their residual is compared with
+    # stop_updating_after on the caller's scale, so the 'solved right away' exit legitimately depends on alpha
+    sub_eps = bool((S.iszero & (S.beta > 0)).any())
+    exact = m == 0.5 and inrange and x0ok and bool((b2.double() == S.b_lib.double() * alpha).all()) and bool(stable.all()) and not sub_eps
     labels.append("alpha:%s" % ("pow2" if exact else "general"))
     if not bool(stable.all()):
         labels.append("scale:threshold_crossing_cols_skipped")
     want = r1["x"] * alpha
     if exact:
-        # columns with 0 < ||b|| < eps are iterated un-normalised (rhs_norm := 1): their residual is compared with
-        # stop_updating_after on the caller's scale, so the exit path legitimately depends on alpha -> no warning comparison
-        sub_eps = bool((S.iszero & (S.beta > 0)).any())
-        if bool(stable.all()) and not sub_eps and r1["warned"] != r2["warned"]:
+        if r1["warned"] != r2["warned"]:
             _fail("scaling", "pow2", "warning", "NumericalWarning raised for one of cg(B), cg(%g B) only; %s" % (alpha, desc))
         err = (r2["x"] - want).abs()
         bnd = 8 * S.u * want.abs().amax(-2, keepdim=True).expand_as(want) + 1e-300
@@ -971,7 +975,37 @@ FAMILIES = {"sweep": _fam_sweep, "conv": _fam_conv, "scale": _fam_scale, "tridia
 
 def _trig_tridiag_max_iter_1(case):
     a = case.get("args", {})
-    return case.get("fam") == "tridiag" and a.get("n_tridiag", 0) > 0 and a.get("max_iter") == 1
+    return case.get("fam") == "tridiag" and a.get("n_tridiag", 0) > 0 and a.get("max_iter") == 1 and a.get("tolerance") != 0.0
 
 
 TRIGGERS = {"tridiag_max_iter_1": _trig_tridiag_max_iter_1}
+
+# sensitivity protocol (DESIGN 1.5): scratch-copy edits of linear_operator/utils/linear_cg.py and the sub-check that kills them
+MUTANTS = [
+    ("drop `alpha.masked_fill_(has_converged, 0)` (no-precond jit kernel)", "killed: frozen", "corpus/C08/mut_no_freeze_mask_noprecond.json"),
+    ("drop `alpha.masked_fill_(has_converged, 0)` (preconditioned branch)", "killed: frozen (+ tridiag ritz)", "corpus/C08/mut_no_freeze_mask_precond.json"),
+    ("`result.mul(rhs_norm)` dropped", "killed: chebyshev, residual, scaling", "corpus/C08/mut_no_unnormalise.json"),
+    ("`prev_beta.sqrt_()` -> `prev_beta` in t_mat", "killed: tridiag quadrature-inv / ritz", "corpus/C08/mut_tridiag_no_sqrt.json"),
+    ("r^T r instead of r^T z in residual_inner_prod", "killed: chebyshev, precond_limit", "corpus/C08/mut_precond_inner_product.json"),
+    ("stop on residual_norm.min() instead of .mean() (extra)", "killed: residual", "corpus/C08/mut_stop_on_min_residual.json"),
+    (
+        "`residual_norm.masked_fill_(rhs_is_zero, 0)` dropped",
+        "survives: with the default zero guess a zero column has residual 0 anyway; the mask only changes (a) zero/sub-eps columns "
+        "combined with a non-zero initial guess (outside the statement) and (b) when the warning is raised (constrained in one direction only)",
+        None,
+    ),
+]
+
+
+def gaps(labels):
+    want = (
+        ["fam:" + f for f in sorted(set(FAMS))]
+        + ["pre:" + k for k in sorted(set(PRECONDS))]
+        + ["col:" + k for k in sorted(set(COLKINDS))]
+        + ["dtype:f32", "dtype:f64", "x0:given", "batch:broadcast", "batch:A=rhs", "rhs:vector"]
+        + ["kappa:1e%d" % d for d in (0, 1, 2, 4, 6)]
+        + ["family:" + f for f in ("uniform", "two_clusters", "geometric", "one_outlier")]
+        + ["err:" + e for e in ("nan_A", "nan_rhs", "limits", "limits_default")]
+        + ["by_size:True", "warned:True", "warned:False", "frozen:certified", "clean_rows:all", "quad:full_dimension", "alpha:pow2", "alpha:general"]
+    )
+    return sorted("never generated / reached: " + w for w in want if not labels.get(w))
